@@ -47,6 +47,9 @@ inductive Prim where
   | closeF
   /-- `os.rename(paths[k], paths[k+1])` -/
   | rename (k : Nat)
+  /-- `os.rename(paths[k], paths[k+1])` raising `OSError` although the source exists (an injected
+  fault: `EBUSY`, `EACCES`, …): nothing moved -/
+  | renameErr (k : Nat)
   /-- `ocfn(path, 'w+')`: create or truncate the main file and open it -/
   | create
   /-- `ocfn(path, 'a+')`: open the main file for append, creating it if absent -/
@@ -82,6 +85,7 @@ def FS.apply (fs : FS) : Prim → FS
     match fs.slots k with
     | some c => (fs.setSlot (k + 1) (some c)).setSlot k none
     | none => fs                                           -- `OSError`: nothing moved
+  | .renameErr _ => fs
   | .create => { fs.setSlot 0 (some []) with buf := [], isOpen := true }
   | .openA => { fs.setSlot 0 (some (content (fs.slots 0))) with buf := [], isOpen := true }
   | .touch k => fs.setSlot k (some (content (fs.slots k)))
@@ -139,6 +143,8 @@ inductive Op where
   /-- the process is killed (or ends after a STOP) and a new one is started: new store, new
   `Logger` and `Log` objects, same configuration -/
   | reboot
+  /-- fault injection: the `n`-th `os.rename` call from now raises `OSError` -/
+  | fault (n : Nat)
   /-- the process is killed IN THE MIDDLE of control `c`, after `k` of the primitives the control
   performs on this log's files (between the rename and the reopen of a rotation, between the header
   write and the flush, …), and a new process is started on what it left -/
@@ -166,6 +172,9 @@ structure St where
   /-- number of records written -/
   seq : Nat := 0
   batch : Option (List Nat) := some [8]
+  /-- fault injection: `some n` = the `n`-th `os.rename` call of this log from now (counting from
+  0) raises `OSError` without moving anything -/
+  failAt : Option Nat := none
 
 /-- perform primitives: on the files and onto the trace -/
 def St.emit (s : St) (ps : List Prim) : St :=
@@ -198,9 +207,13 @@ def St.reopen (s : St) (keep : Nat) : St :=
 def St.renames (s : St) : Nat → St × Bool
   | 0 => (s, true)
   | k + 1 =>
-    match s.fs.slots k with
-    | some _ => St.renames (s.emit [.rename k]) k
-    | none => (s.emit [.rename k], false)
+    match s.failAt with
+    | some 0 => (({ s with failAt := none } : St).emit [if (s.fs.slots k).isSome then .renameErr k else .rename k], false)
+    | f =>
+      let s : St := { s with failAt := f.map (· - 1) }
+      match s.fs.slots k with
+      | some _ => St.renames (s.emit [.rename k]) k
+      | none => (s.emit [.rename k], false)
 
 /-- `Log.cycle(size)` -/
 def St.cycle (s : St) : St :=
@@ -286,6 +299,7 @@ def St.step (s : St) : Op → St
   | .ctl c => s.send c
   | .reboot => s.reboot
   | .die c k => s.die c k
+  | .fault n => { s with failAt := some n }
 
 def St.exec (s : St) : List Op → St
   | [] => s
@@ -301,6 +315,7 @@ def proto : Status → List Op → Bool
   | st, .ctl .run :: r => (st != .stopped) && proto .running r
   | _, .ctl .stop :: r => proto .stopped r
   | _, .reboot :: r => proto .stopped r
+  | _, .fault _ :: _ => false        -- the history theorems are about runs without injected faults
   | st, .die c _ :: r => (match c with | .run => st != .stopped | _ => true) && proto .stopped r
   | st, _ :: r => proto st r
 
